@@ -27,7 +27,25 @@
 #include <string.h>
 extern int env_locks_held;
 
+/* the formatter behind the head of an outgoing message (http_snprintf): a stand-in that writes RLEN bytes of 'R' per
+ * call - which bytes a response head consists of is not the subject, WHERE they are put is (MODE 5) */
+#ifndef RLEN
+#define RLEN 3
+#endif
+static int
+h_snprintf(char *b, size_t n, const char *f, ...)
+{
+	(void) f;
+	for (size_t i = 0; i < RLEN; i++)
+		if (b != NULL && i + 1 < n)
+			b[i] = 'R';
+	if (b != NULL && n > 0)
+		b[RLEN + 1 <= n ? RLEN : n - 1] = 0;
+	return RLEN;
+}
+#define snprintf h_snprintf
 #include "supplemental/http/http_conn.c"
+#undef snprintf
 static int strm_closed;
 
 #ifndef NW
@@ -176,6 +194,13 @@ static int             status_set;
 static nng_http_status status_val;
 /* ---- position models of the head parsers ---- */
 static int parser_calls;
+#if MODE == 5
+static size_t hdrend_v = HDREND, line1_v = LINE1;
+#undef HDREND
+#undef LINE1
+#define HDREND hdrend_v
+#define LINE1 line1_v
+#endif
 static nng_err
 model_parse(void *buf, size_t n, size_t *lenp)
 {
@@ -375,6 +400,31 @@ harness(void)
 		CHECK(env_aio_completed(&u2) == 0, "an exact read is not completed before all of its bytes have arrived");
 		WITNESS("exact read still waiting");
 	}
+#elif MODE == 5
+	/* PIPELINING: the head of request 1 (no body) and the beginning of request 2 arrive in ONE segment; the server answers
+	 * request 1 (nni_http_write_res formats the head of the response) and then reads request 2: the parser must see exactly
+	 * the stream bytes that followed request 1 - what the server does in between must not alter bytes that have been received
+	 * but not yet consumed (the same stream decodes to the same requests however it is cut into segments) */
+	NNI_LIST_INIT(&conn.res.data.hdrs, http_header, node);
+	NNI_LIST_INIT(&conn.req.data.hdrs, http_header, node);
+	size_t head1 = hdrend_v;
+	submit_rd(&u1, HTTP_RD_REQ);
+	pump_rx(&u1);
+	CHECK(env_aio_completed(&u1) == 1 && nni_aio_result(&u1) == 0 && consumed == head1, "the first request head is read");
+	CHECK(w_delivered > head1, "harness: bytes of the second request arrived together with the first");
+	env_aio_submit(&u2);
+	nni_http_write_res(&conn, &u2);
+	quiesce();
+	pump_tx(&u2);
+	CHECK(env_aio_completed(&u2) == 1 && nni_aio_result(&u2) == 0, "the response to the first request is written");
+	WITNESS("response written with bytes of the next request buffered");
+	/* request 2: its first line ends 2 bytes on, its head 4 bytes on */
+	line1_v  = head1 + 2;
+	hdrend_v = head1 + 4;
+	submit_rd(&u3, HTTP_RD_REQ);
+	pump_rx(&u3);
+	CHECK(env_aio_completed(&u3) == 1 && nni_aio_result(&u3) == 0 && consumed == hdrend_v, "the second request head is read");
+	WITNESS("second request read");
 #elif MODE == 3
 	u8      src[L];
 	nni_iov iov[2];
